@@ -43,7 +43,11 @@ static int cmd_lr(int, char**) {
             hull(std::set<LRElement>{{S, 0, 0, Grammar::Symbol::Terminal(0)}}, G);
         }
         std::vector<Grammar::Symbol> rhs;
-        for (auto& x : r["r"]) rhs.push_back(sym(x.get<std::string>()));
+        // "eps": right-hand sides written with explicit epsilons around every symbol (add() strips them: the same grammar)
+        bool eps = in.value("eps", false);
+        if (eps) rhs.push_back(Grammar::Symbol::Epsilon());
+        for (auto& x : r["r"]) { rhs.push_back(sym(x.get<std::string>())); if (eps) rhs.push_back(Grammar::Symbol::Epsilon()); }
+        if (eps && r["r"].empty()) rhs.push_back(Grammar::Symbol::Epsilon());
         std::string tag = rule_name(r);
         G.add(std::make_pair(sym(r["l"].get<std::string>()), rhs), [tag](std::vector<std::string> v) -> std::string {
           std::string o = tag + "(";
@@ -87,6 +91,12 @@ static int cmd_lr(int, char**) {
         }
       }
       m["runs"] = runs;
+      if (in.value("regen", false)) {
+        // generating the tables again (on a copy of the generated parser, as a cache or a container would) reports the same conflicts
+        auto P2 = P;
+        auto gr2 = P2.generateParseTables();
+        m["conflict2"] = !gr2.empty();
+      }
       out[prefix ? "pre" : "full"] = m;
     }
     th::unwatch();
